@@ -92,7 +92,11 @@ def strategy(tier):
                 name = ":".join(f)
                 lst = []
                 for j, c in enumerate(f):
-                    if c in ("b1",) or (c == "t1"):
+                    if c == "t1" and draw(st.booleans()):
+                        # an explicit timestamp binning anchored at the epoch: NaT (-> 0 ns) sits exactly on its origin
+                        lst.append({"binWidth": draw(st.sampled_from((2592000000000000, 86400000000000))), "origin": 0})
+                        explicit_cols.add((name, c))
+                    elif c in ("b1",) or (c == "t1"):
                         lst.append({})
                     else:
                         lst.append(draw(num_spec(j == len(f) - 1, c == "i1")))
